@@ -6,7 +6,7 @@ import collections
 import numpy as np
 
 from .common import close, digest, has_nan, short
-from .ir import IllTyped, Unsupported, kinds_in, show, typecheck
+from .ir import IllConditioned, IllTyped, Unsupported, kinds_in, show, typecheck
 from .lift import lift, lift_call
 from .refsem import all_envs, ref_eval
 
@@ -277,12 +277,15 @@ def check_firing(f, rng=None, max_points=48):
     n = 0
     try:
         for env in all_envs(li, rng, nreal=2, limit=max_points):
-            with np.errstate(all="ignore"):
-                a = ref_eval(lhs, env)
-            if has_nan(a):
+            try:
+                with np.errstate(all="ignore"):
+                    a = ref_eval(lhs, env)
+                if has_nan(a):
+                    continue
+                with np.errstate(all="ignore"):
+                    b = ref_eval(rhs, env)
+            except IllConditioned:
                 continue
-            with np.errstate(all="ignore"):
-                b = ref_eval(rhs, env)
             n += 1
             if not close(b, a):
                 return FiringVerdict("bad", "value", "at %s the replaced term is %s but the rule's result is %s" % (
